@@ -112,6 +112,53 @@ pub fn check(case: &ProgCase, info: &mut CaseInfo) -> Result<(), String> {
     check_with(case, info, c03::cap(case.cfg.model.bits()), cfg!(feature = "batch"))
 }
 
+/// fills of more than 2^26 pixels on the 65535x65535 external models
+pub fn giant_cases() -> Vec<ProgCase> {
+    let mut cases = Vec::new();
+    for model in [crate::models::ModelId::EHuge, crate::models::ModelId::EHuge565] {
+        for (w, h, ox, oy) in [(65535u16, 65535u16, 0u16, 0u16), (50000, 30000, 15535, 35535), (65535, 16385, 0, 100), (40000, 30000, 1, 2)] {
+            for o in Orient::ALL {
+                let mut cfg = Config::full(model, if model == crate::models::ModelId::EHuge565 { Transport::Rec16 } else { Transport::Rec8 });
+                cfg.w = w;
+                cfg.h = h;
+                cfg.ox = ox;
+                cfg.oy = oy;
+                cfg.orient = o;
+                cases.push(ProgCase { cfg: cfg.clone(), ops: vec![DrawOp::Clear { seed: 1 }] });
+                // black / white / uniform-byte colours (single-word paths of the transports)
+                cases.push(ProgCase { cfg: cfg.clone(), ops: vec![DrawOp::Clear { seed: UNIFORM_SEED_BASE }] });
+                cases.push(ProgCase { cfg: cfg.clone(), ops: vec![DrawOp::Clear { seed: UNIFORM_SEED_BASE + 4 }] });
+                let (lw, lh) = cfg.logical_size(o);
+                cases.push(ProgCase { cfg: cfg.clone(), ops: vec![DrawOp::FillSolid { rect: Rect { x: -5, y: -5, w: lw + 10, h: lh + 10 }, seed: 2 }] });
+                // an inner rectangle (placement under the orientation), plain and single-word colours
+                cases.push(ProgCase { cfg: cfg.clone(), ops: vec![DrawOp::FillSolid { rect: Rect { x: 7, y: 9, w: lw - 20, h: lh - 30 }, seed: 3 }] });
+                cases.push(ProgCase { cfg, ops: vec![DrawOp::FillSolid { rect: Rect { x: 7, y: 9, w: lw - 20, h: lh - 30 }, seed: UNIFORM_SEED_BASE + 1 }, DrawOp::Clear { seed: UNIFORM_SEED_BASE + 2 }] });
+            }
+        }
+    }
+    cases
+}
+
+/// the visible logical rectangle (inclusive corners) a clear / fill_solid call paints
+pub fn giant_target(cfg: &Config, o: Orient, op: &DrawOp) -> Option<(u32, u32, u32, u32)> {
+    let (lw, lh) = cfg.logical_size(o);
+    match op {
+        DrawOp::Clear { .. } => Some((0, 0, lw - 1, lh - 1)),
+        DrawOp::FillSolid { rect, .. } => {
+            let x0 = (rect.x as i64).max(0);
+            let y0 = (rect.y as i64).max(0);
+            let x1 = (rect.x as i64 + rect.w as i64).min(lw as i64) - 1;
+            let y1 = (rect.y as i64 + rect.h as i64).min(lh as i64) - 1;
+            if x1 < x0 || y1 < y0 {
+                None
+            } else {
+                Some((x0 as u32, y0 as u32, x1 as u32, y1 as u32))
+            }
+        }
+        _ => None,
+    }
+}
+
 /// clear / fill_solid over more than 2^30 pixels: only the traffic is judged (the reference image of
 /// such a fill is never built)
 pub fn check_giant(c: &ProgCase, info: &mut CaseInfo) -> Result<(), String> {
@@ -135,7 +182,10 @@ pub fn check_giant(c: &ProgCase, info: &mut CaseInfo) -> Result<(), String> {
                 }
             };
             crate::exec::check_framing(&obs, true)?;
-            let area = c.cfg.w as u64 * c.cfg.h as u64;
+            let area = match giant_target(&c.cfg, s.orient, op) {
+                Some((x0, y0, x1, y1)) => (x1 - x0 + 1) as u64 * (y1 - y0 + 1) as u64,
+                None => return Err("HARNESS: giant-fill case with an empty or unsupported call".into()),
+            };
             if window_setups(&obs) != 1 || obs.bursts.len() != 1 || obs.bursts[0].pixels != area {
                 return Err(format!(
                     "{} of {} pixels used {} address-window set-ups and bursts of {:?} pixels, expected exactly one set-up and one burst of the whole area",
@@ -229,25 +279,7 @@ pub fn run(ctx: &Ctx) -> Report {
         "clear / fill_solid of more than 2^30 pixels (65535x65535 external models, full size and large windows, all orientations): exactly one address-window set-up, one burst of exactly the window area (only the traffic is judged; the frame memory of such a window is not simulated)",
     );
     sec.exhaustive = true;
-    let mut cases = Vec::new();
-    for model in [crate::models::ModelId::EHuge, crate::models::ModelId::EHuge565] {
-        for (w, h, ox, oy) in [(65535u16, 65535u16, 0u16, 0u16), (50000, 30000, 15535, 35535), (65535, 16385, 0, 100), (40000, 30000, 1, 2)] {
-            for o in [Orient::ALL[0], Orient::ALL[1], Orient::ALL[6]] {
-                let mut cfg = Config::full(model, if model == crate::models::ModelId::EHuge565 { Transport::Rec16 } else { Transport::Rec8 });
-                cfg.w = w;
-                cfg.h = h;
-                cfg.ox = ox;
-                cfg.oy = oy;
-                cfg.orient = o;
-                cases.push(ProgCase { cfg: cfg.clone(), ops: vec![DrawOp::Clear { seed: 1 }] });
-                // black / white / uniform-byte colours (single-word paths of the transports)
-                cases.push(ProgCase { cfg: cfg.clone(), ops: vec![DrawOp::Clear { seed: UNIFORM_SEED_BASE }] });
-                cases.push(ProgCase { cfg: cfg.clone(), ops: vec![DrawOp::Clear { seed: UNIFORM_SEED_BASE + 4 }] });
-                let (lw, lh) = cfg.logical_size(o);
-                cases.push(ProgCase { cfg, ops: vec![DrawOp::FillSolid { rect: Rect { x: -5, y: -5, w: lw + 10, h: lh + 10 }, seed: 2 }] });
-            }
-        }
-    }
+    let cases = giant_cases();
     run_enumerated(&mut sec, cases, ctx.workers, check_giant, sig);
     rep.sections.push(sec);
 
